@@ -22,7 +22,13 @@ FUNCS = {
             'density', 'pair_density', 'node_density', 'avg_number_of_nodes', 'temporal_snapshots_ids'],
     'C04': ['temporal_snapshots_ids', 'avg_number_of_nodes'],
     'C18': ['compact_timeslot'],
+    'C14': ['path_length', 'path_duration', 'annotate_paths'],
 }
+# property -> (translator, generated module, equality module); default: the statistics translator
+TIES = {
+    'C14': ('py2gallina_paths.py', 'PyGenPaths', 'PyGenPathsEq'),
+}
+DEFAULT_TIE = ('py2gallina_stats.py', 'PyGenStats', 'PyGenStatsEq')
 
 
 def _sh(cmd, cwd=None, timeout=600):
@@ -35,14 +41,15 @@ def check(pid, repo):
     if pid not in FUNCS:
         return None
     want = FUNCS[pid]
+    tool, GEN, EQ = TIES.get(pid, DEFAULT_TIE)
     work = os.path.join(VERIF, '.work', 'tie_%s_%d' % (pid, os.getpid()))
     shutil.rmtree(work, ignore_errors=True)
     os.makedirs(work)
-    out = dict(functions=want, translator='tools/py2gallina_stats.py', snapshot='coq/theories/gen/PyGenStats.v',
-               equalities='coq/theories/proofs/PyGenStatsEq.v (py_<f>_eq)')
+    out = dict(functions=want, translator='tools/' + tool, snapshot='coq/theories/gen/%s.v' % GEN,
+               equalities='coq/theories/proofs/%s.v (py_<f>_eq)' % EQ)
     try:
-        gen = os.path.join(work, 'PyGenStats.v')
-        rc, so, se = _sh('%s %s %s %s' % (sys.executable, os.path.join(VERIF, 'tools', 'py2gallina_stats.py'), repo, gen))
+        gen = os.path.join(work, GEN + '.v')
+        rc, so, se = _sh('%s %s %s %s' % (sys.executable, os.path.join(VERIF, 'tools', tool), repo, gen))
         if rc != 0:
             out.update(status='broken', detail='translator exit %d: %s' % (rc, (so + se)[-400:]))
             return out
@@ -57,11 +64,11 @@ def check(pid, repo):
         if failed or missing:
             out.update(status='broken', detail='outside the translated subset (fail-closed): %s' % (failed or missing))
             return out
-        snap = os.path.join(COQ, 'theories', 'gen', 'PyGenStats.v')
+        snap = os.path.join(COQ, 'theories', 'gen', GEN + '.v')
         if open(gen).read() == open(snap).read():
-            ok = os.path.exists(os.path.join(COQ, 'theories', 'proofs', 'PyGenStatsEq.vo'))
+            ok = os.path.exists(os.path.join(COQ, 'theories', 'proofs', EQ + '.vo'))
             out.update(status='identical' if ok else 'broken',
-                       detail='regenerated text = committed snapshot; equalities checked by the full build' if ok else 'PyGenStatsEq.vo missing')
+                       detail='regenerated text = committed snapshot; equalities checked by the full build' if ok else EQ + '.vo missing')
             return out
         # regenerated text differs: re-prove in a scratch copy
         th = os.path.join(work, 'theories')
@@ -69,15 +76,15 @@ def check(pid, repo):
             rel = os.path.relpath(d, os.path.join(COQ, 'theories'))
             os.makedirs(os.path.join(th, rel), exist_ok=True)
             for f in fs:
-                if f.endswith('.vo') and not (f.startswith('PyGenStats') or f.startswith('.')):
+                if f.endswith('.vo') and not (f.startswith(GEN) or f.startswith('.')):
                     os.symlink(os.path.join(d, f), os.path.join(th, rel, f))
-        shutil.copy(gen, os.path.join(th, 'gen', 'PyGenStats.v'))
-        shutil.copy(os.path.join(COQ, 'theories', 'proofs', 'PyGenStatsEq.v'), os.path.join(th, 'proofs', 'PyGenStatsEq.v'))
-        rc, so, se = _sh('timeout 300 coqc -Q theories DynVerif theories/gen/PyGenStats.v', cwd=work)
+        shutil.copy(gen, os.path.join(th, 'gen', GEN + '.v'))
+        shutil.copy(os.path.join(COQ, 'theories', 'proofs', EQ + '.v'), os.path.join(th, 'proofs', EQ + '.v'))
+        rc, so, se = _sh('timeout 300 coqc -Q theories DynVerif theories/gen/%s.v' % GEN, cwd=work)
         if rc != 0:
-            out.update(status='broken', detail='regenerated PyGenStats.v does not compile: ' + (so + se)[-400:])
+            out.update(status='broken', detail='regenerated %s.v does not compile: ' % GEN + (so + se)[-400:])
             return out
-        rc, so, se = _sh('timeout 600 coqc -Q theories DynVerif theories/proofs/PyGenStatsEq.v', cwd=work)
+        rc, so, se = _sh('timeout 600 coqc -Q theories DynVerif theories/proofs/%s.v' % EQ, cwd=work)
         if rc == 0:
             out.update(status='reproved', detail='source text changed; every py_<f>_eq re-proved against the regenerated definitions')
             return out
@@ -86,7 +93,7 @@ def check(pid, repo):
         lemma = None
         if m:
             ln = int(m.group(1))
-            lines = open(os.path.join(th, 'proofs', 'PyGenStatsEq.v')).read().split('\n')
+            lines = open(os.path.join(th, 'proofs', EQ + '.v')).read().split('\n')
             for i in range(min(ln, len(lines)) - 1, -1, -1):
                 mm = re.match(r'\s*(?:Lemma|Theorem|Example)\s+([A-Za-z0-9_\']+)', lines[i])
                 if mm:
